@@ -15,8 +15,8 @@
     string constant read by C07's reader of that shell -- and nothing else but the fixed statements of
     the skeleton. *)
 From CG Require Import Base.Prelude Model.Ast Model.Dfa Model.Tpl Model.Quote Model.Tables Model.EmitBash Model.EmitData
-     Model.EmitZsh Model.EmitPwsh Spec.ShellDQ Spec.ScriptRead Proofs.BashCodec Proofs.BashScript Proofs.ScriptGen
-     Proofs.ZshCodec Proofs.ZshScript Proofs.PwshCodec Proofs.PwshScript.
+     Model.EmitZsh Model.EmitPwsh Model.EmitFish Spec.ShellDQ Spec.ScriptRead Proofs.BashCodec Proofs.BashScript Proofs.ScriptGen
+     Proofs.ZshCodec Proofs.ZshScript Proofs.PwshCodec Proofs.PwshScript Proofs.FishCodec Proofs.FishScript.
 Open Scope N_scope.
 Open Scope list_scope.
 
@@ -102,3 +102,38 @@ Example ex_C04_embed_pwsh :
   end.
 Proof. vm_compute. repeat split. Qed.
 Print Assumptions ex_C04_embed_pwsh.
+
+(** fish.  Hypotheses: the command name is made of name characters and has no closing parenthesis (the
+    registration line writes "(_<cmd>)"), the signature line has no newline, no line of a command body
+    is a lone [end].  No hypothesis on literals or descriptions (C07_fish_total).  All data statements
+    of the fish script are [set] lists; states and literal ids are one-based ([F.st]). *)
+Theorem C04_embed_fish :
+  forall (command sig : string) (start : N) (nd : needs) (a : alltables) (groups : list (list N)) (s : string),
+    fname_ok command -> no_nl sig = true ->
+    Forall (fun c : string => body_okG Fish c) (a_commands a) ->
+    EmitFish.script command sig start nd a groups = Ok s ->
+    exists sts : list stmt,
+      fscript_stmts command start nd a groups = Ok sts /\ read_stmts Fish command s = sts.
+Proof. exact fish_script_read. Qed.
+Check C04_embed_fish :
+  forall (command sig : string) (start : N) (nd : needs) (a : alltables) (groups : list (list N)) (s : string),
+    fname_ok command -> no_nl sig = true ->
+    Forall (fun c : string => body_okG Fish c) (a_commands a) ->
+    EmitFish.script command sig start nd a groups = Ok s ->
+    exists sts : list stmt,
+      fscript_stmts command start nd a groups = Ok sts /\ read_stmts Fish command s = sts.
+Print Assumptions C04_embed_fish.
+
+Example ex_C04_embed_fish :
+  match EmitFish.script_of_dfa "cmd" "cmd completion script v0" exd_cdfa0 exd_om0 exd_os0 [[1]] with
+  | Ok (s, valid) =>
+      valid = true
+      /\ match all_tables Fish exd_cdfa0 exd_om0 exd_os0 with
+         | Ok (nd, a) => fscript_stmts "cmd" 0 nd a [[1]] = Ok (read_stmts Fish "cmd" s)
+                         /\ forallb (fun c => forallb (fun l => negb (String.eqb l "end")) (split_nl c)) (a_commands a) = true
+         | _ => False
+         end
+  | _ => False
+  end.
+Proof. vm_compute. repeat split. Qed.
+Print Assumptions ex_C04_embed_fish.
